@@ -77,14 +77,15 @@ func metaLeaves(v zed.Value) []metaLeaf {
 var hostileUints = []uint64{0, 1, 2, 3, 255, 256, 65535, 65536, 1 << 20, 1<<20 + 1, 1 << 24, 1<<31 - 1, 1 << 31, 1<<32 - 1, 1 << 32, 1 << 33, 1 << 40, 1 << 47, 1 << 48, 1 << 62, 1<<63 - 1, 1 << 63, 1<<64 - 1}
 
 var hostileTypeValues = [][]byte{
-	{34, 2, 9}, {34, 1}, {34, 0}, {30, 1, 1, 'a'}, {37, 1, 'x'}, {38, 1, 'x'}, {35, 0xff, 0xff, 3}, {},
+	// (rapid favours the front of a sampled list: the most telling ones first)
+	{34, 2, 9}, {30, 0x80, 0x80, 0x80, 0x08}, {34, 0x80, 0x80, 0x80, 0x08}, {35, 0x80, 0x80, 0x80, 0x08}, // truncated union; record/union/enum announcing 2^24 entries
+	{34, 1}, {34, 0}, {30, 1, 1, 'a'}, {37, 1, 'x'}, {38, 1, 'x'}, {35, 0xff, 0xff, 3}, {},
 	{30, 0xff, 0xff, 0xff, 0xff, 0xff, 0xff, 0xff, 0xff, 0xff, 0x01},
 	{34, 0xff, 0xff, 0xff, 0xff, 0xff, 0xff, 0xff, 0xff, 0x7f},
 	{35, 0xff, 0xff, 0xff, 0xff, 0xff, 0xff, 0xff, 0xff, 0xff, 0x01},
 	{30, 1, 0xff, 0xff, 0xff, 0xff, 0xff, 0xff, 0xff, 0xff, 0xff, 0x01, 'a', 9},
 	{31, 31, 31, 31}, {99}, {29}, {28}, {25}, {9, 9}, {33, 9}, {32}, {36},
-	{30, 0x80, 0x80, 0x80, 0x08}, {30, 0x80, 0x80, 0x80, 0x40}, // record type values announcing 2^24 / 2^27 fields
-	{34, 0x80, 0x80, 0x80, 0x08}, {35, 0x80, 0x80, 0x80, 0x08}, // union / enum announcing 2^24 members
+	{30, 0x80, 0x80, 0x80, 0x40},                                           // record type value announcing 2^27 fields
 	{30, 0xa1, 0x8d, 0x06}, {34, 0xa1, 0x8d, 0x06}, {35, 0xa1, 0x8d, 0x06}, // 100001: one more than MaxRecordFields etc.
 	{30, 2, 1, 'a', 9, 1, 'a', 9}, // duplicate field
 	{37, 5, 'i', 'n', 't', '6', '4', 9},
@@ -124,7 +125,7 @@ func drawVNGEdits(t *rapid.T, c *Case) {
 		}
 	}
 	for k := 0; k < nedit; k++ {
-		pickType := len(typeIdx) > 0 && (len(uintIdx) == 0 || rapid.IntRange(0, 3).Draw(t, "edittype?") == 0)
+		pickType := len(typeIdx) > 0 && (len(uintIdx) == 0 || rapid.IntRange(0, 9).Draw(t, "edittype?") < 4)
 		if pickType {
 			i := rapid.SampledFrom(typeIdx).Draw(t, "typeleaf")
 			tv := rapid.SampledFrom(hostileTypeValues).Draw(t, "typevalue")
